@@ -521,7 +521,7 @@ func c02Scenarios(tier mc.Tier) []mc.Scenario {
 func init() {
 	_ = x509.Certificate{}
 	register(&mc.Check{
-		ID: "C02", Title: "Only the six approved algorithms, each bound to its key type and size", DesignRef: "DESIGN.md §4 C02",
+		ID: "C02", Extra: envRacePass("C02"), Title: "Only the six approved algorithms, each bound to its key type and size", DesignRef: "DESIGN.md §4 C02",
 		Rule: "The complete finite table: 10 leaf key kinds (RSA 1024/2048/2560/3072/4096, EC P-224/256/384/521, Ed25519) x 17 declarations (the six approved, RS*, HS*, ES256K, EdDSA, none, unknown, absent) x both formats x (JWS) five forms of the declaration incl. letter-case twins of `alg`, " +
 			"each envelope produced by the independent encoder with a signature that is genuinely valid for the declared algorithm wherever the key type permits one; every remote-signer KeySpec in {RSA,EC,0,7} x 10 sizes against every certificate key; every (leaf key, private key) pair of the 26-key pool for NewLocalSigner; Hash() for -1..8 and SignatureAlgorithm() on the grid.",
 		Assumptions: []string{"a letter-case twin that repeats the diagonal value is recorded, not judged", "two exact `alg` members are not generated (RFC 7515 lets a parser reject or take the last)"},
